@@ -143,3 +143,25 @@ def gen_case(rng, callers, st, spoof=False, dest_label=None, with_key=None, dire
             caller = callers.caller(uid, proc, uid == 0)
     req = gen_req(rng, env, label, spoof)
     return {"env": env, "caller": caller, "dest": addr, "req": req, "plan": gen_plan(rng), "label": label}
+
+
+def query_rule_sessions(callers, key=KEY):
+    """sessions for ONE kept-alive connection each: the same path asked with different query strings that the rules tell apart, and
+    the rule set replaced between identical requests. Returns a list of lists of cases (IMDS, caller alice)."""
+    def qdoc(granted, mode="enforce"):
+        return {"id": "q-" + granted + "-" + mode, "mode": mode, "defaultAccess": "deny", "rules": {
+            "privileges": [{"name": "p1", "path": "/metadata/instance", "queryParameters": {"resource": granted}}],
+            "roles": [{"name": "r1", "privileges": ["p1"]}],
+            "identities": [{"name": "i1", "userName": "alice"}],
+            "roleAssignments": [{"role": "r1", "identities": ["i1"]}]}}
+    alice = callers.caller(1000, "curl", False)
+
+    def qreq(resource, doc, extra=""):
+        return {"env": {"ws": None, "imds": doc, "hostga": None, "key": key}, "caller": alice, "dest": dict(DESTS)["imds"], "label": "imds",
+                "plan": None, "req": {"method": "GET", "target": "/metadata/instance?resource=%s%s" % (resource, extra),
+                                      "headers": [(b"Host", b"h")], "body": None, "chunked": None}}
+    ds, dv, da = qdoc("storage"), qdoc("vault"), qdoc("storage", "audit")
+    return [[qreq("storage", ds), qreq("vault", ds), qreq("storage", ds), qreq("vault", ds, "&x=1")],
+            [qreq("vault", ds), qreq("storage", ds), qreq("STORAGE", ds), qreq("vault", ds)],
+            [qreq("storage", ds), qreq("storage", dv), qreq("vault", dv), qreq("vault", ds), qreq("storage", ds)],
+            [qreq("storage", ds), qreq("storage", da), qreq("vault", da), qreq("vault", da), qreq("vault", ds)]]
